@@ -321,6 +321,8 @@ def one_history(acc, seed, tag):
             if not good:
                 return
             note = ref.apply(ev)
+            if ref.conn != "up":
+                del W.server.held_pings[:]      # pings of a connection that is gone can never be answered
             if note == "auto-reconnect":
                 acc.count("auto_reconnects")
                 interesting = True
